@@ -632,6 +632,20 @@ def run_c14(tier, seed):
 # ---------------------------------------------------- C10 (concurrent half)
 def c10_concurrent(out, tier, seed):
     """producers and consumers on shared queues: exactly-once delivery = linearizability against the queue operators"""
+    # design level: QueueConc.tla, every interleaving of the statements of pushes and pulls (and kills of consumers)
+    for name, what in (('ok', '2 producers x 2 pushes, 2 consumers x 2 pulls'), ('kill', 'the same with consumers killed at any statement'),
+                       ('fifo', '2 producers, 1 consumer: deliveries in push-commit order')):
+        res = run_tlc('MCQueueConc.tla', 'MCQueueConc_%s.cfg' % name, workers=8, timeout=600)
+        if res.error or res.violation:
+            raise MachineryError('MCQueueConc_%s: %s %s\n%s' % (name, res.error, res.violation, res.out[-1500:]))
+        out.add_tlc('MCQueueConc_%s.cfg' % name, res, what + '; AtMostOnce, NoLoss, KeysIncrease, Fifo')
+    rej = []
+    for name, inv in (('dev_pull', 'AtMostOnce'), ('dev_push', 'NoLoss')):
+        res = run_tlc('MCQueueConc.tla', 'MCQueueConc_%s.cfg' % name, workers=2, timeout=300)
+        if res.violation != inv:
+            raise MachineryError('MCQueueConc_%s was expected to violate %s, got %s %s' % (name, inv, res.violation, res.error))
+        rej.append('%s violates %s' % (name, inv))
+    out.notes['design_deviations_rejected'] = rej
     rng = random.Random(seed * 314606869 + 10)
     jobs_dfs, jobs_rand = [], []
     tid = 0
